@@ -69,6 +69,10 @@ def run(ctx):
     rep.rule("PD-2", "no emitter can run in state Faulty", floor=5)
     rep.rule("PD-3", "peer-delay formula and corrections have the IEEE linear form", floor=15)
     rep.rule("PD-4", "stores into an existing peer-delay exchange are gated on id and requester identity", floor=7)
+    rep.rule("PD-6", "responder side: Pdelay_Resp / Pdelay_Resp_Follow_Up carry the request's correction, the receive "
+                     "and response-origin times and echo requester and sequence id (wiring shared with C10 TX-2)", floor=12)
+    from rules import c10 as _c10
+    _c10.check_msg_wiring(rep, prog, _c10.load_spec(ctx), "PD-6", names={"pdelay_req", "pdelay_resp", "pdelay_resp_follow_up"})
     rep.rule("PD-5", "start_bmca/end_bmca keep port_state (Faulty), peer_delay_state, mean_delay and the pdelay "
                      "sequence generator", floor=2)
     fc.check_lifecycle_transfer(rep, prog, "PD-5", fields={"port_state", "peer_delay_state", "mean_delay",
